@@ -109,6 +109,39 @@ def _o1(ctx, R):
     R.floor("private-field write sites in spydrnet/ir (O1)", 150)
 
 
+def bulk_removals(ctx):
+    """[(func, relation, excluded-set text, [loops over it], write event)] for every container rebuild `self._f = [x for x in self._f
+    if x not in S]` of a public mutator: the elements dropped are exactly S, so whatever must happen per dropped element
+    (announcement, back-pointer clearing, unlinking of instance pins) has to happen in a loop over that same S"""
+    PA = pairing(ctx)
+    out = []
+    for key, f in sorted(PA.funcs.items()):
+        if is_clone_family(f) or not is_public_entry(f):
+            continue
+        res = PA.results[key]
+        seen = set()
+        for re_, facts, toks in res["events"]:
+            if re_.side != "c" or re_.op != "~" or re_.via is not None or id(re_.ev) in seen:
+                continue
+            seen.add(id(re_.ev))
+            S = _filter_excluded(f.node, re_.ev)
+            if S is None:
+                continue
+            rel = O2_RELATIONS[re_.rel]
+            loops = []
+            for lp in walk_local(f.node):
+                if not isinstance(lp, ast.For):
+                    continue
+                it = norm(lp.iter)
+                if it == S:
+                    loops.append(lp)
+                elif it in ("self.%s" % rel.cfield, "self.%s" % rel.cfield.lstrip("_")) and any(
+                        isinstance(n2, ast.If) and isinstance(n2.test, ast.Compare) and norm(n2.test.comparators[0]) == S for n2 in ast.walk(lp)):
+                    loops.append(lp)
+            out.append((f, rel, S, loops, re_.ev))
+    return out
+
+
 def _filter_excluded(fnode, ev):
     """the excluded-set expression of a container rebuild (both idioms)"""
     v = ev.value
@@ -774,6 +807,31 @@ def _m_setter(ctx, R):
             R.bad("M4", "%s|rekey-missing" % f.key, f.loc(), "%s: the re-point branch does not re-key the instance's outer pins" % f.qualname)
 
 
+def _m2_bulk(ctx, R):
+    """bulk removals of ports / pins: the instances are updated for exactly the elements that are dropped"""
+    M = ctx.model
+    n = 0
+    for f, rel, S, loops, wev in bulk_removals(ctx):
+        if rel.name not in ("definition-port", "port-pin"):
+            continue
+        n += 1
+        ok = False
+        for lp in loops:
+            for c in ast.walk(lp):
+                if isinstance(c, ast.Call) and isinstance(c.func, ast.Attribute) and norm(c.func.value) == "self":
+                    t = ctx.P.ir_lookup_method(f.cls.name, c.func.attr)
+                    if t is not None and any(w.startswith(("Instance._pins", "OuterPin.")) for w in pairing(ctx).summary.get(t.key, {}).get("tokens", ())):
+                        ok = True
+        if ok:
+            R.ok("M2", "%s unlinks the instance pins of exactly the elements of %s" % (f.qualname, S), f.loc(wev.stmt))
+        else:
+            R.bad("M2", "%s|bulk %s" % (f.key, rel.name), f.loc(wev.stmt),
+                  "%s drops the elements of `%s` from the %s list, but the loop that removes the matching outer pins from the instances does not run "
+                  "over `%s`: instances keep (connected) pins for something the definition no longer has" % (f.qualname, S, rel.name, S))
+    R.count("bulk port / pin removals (M2)", n)
+    R.floor("bulk port / pin removals (M2)", 2)
+
+
 def _m2_m6(ctx, R):
     R.rule("M2", "unlinking a pin or a port, or clearing a reference, disconnects each affected outer pin from its wire, "
                  "drops it from the instance's pin map and nulls its instance / inner pin")
@@ -887,7 +945,8 @@ def _m9(ctx, R):
         res = PA.results[key]
         hits = {}
         for rev, tk in res.get("refusal_tokens", []):
-            ws = [t for t in tk if t.startswith(("W:Instance._pins.", "W:OuterPin._instance.", "W:OuterPin._inner_pin.", "W:Definition._references."))]
+            ws = [t for t in tk if t.startswith(("W:Instance._pins.", "W:OuterPin._instance.", "W:OuterPin._inner_pin.", "W:Definition._references."))
+                  or (t.startswith("V:") and t.split(":", 2)[2].startswith(("Instance._pins.", "OuterPin._instance.", "OuterPin._inner_pin.", "Definition._references.")))]
             if ws:
                 hits.setdefault(short(rev.stmt, 60), (rev, ws))
         if any(t.startswith(("Instance._pins", "OuterPin.", "Definition._references")) for t in PA.summary[key]["tokens"]):
@@ -985,5 +1044,6 @@ def check_c02(ctx, R):
     _m1(ctx, R)
     _m_setter(ctx, R)
     _m2_m6(ctx, R)
+    _m2_bulk(ctx, R)
     _m9(ctx, R)
     _m5_m7(ctx, R)
